@@ -52,6 +52,9 @@ CLAIMED = {
  "C17": ("7/C17", "type facts from go/types (dynamic type at each registration implements the middleware's own override interface), option-list provenance, token-key provenance per registration, CFG edge-cut guard entailment on the token comparison and on the TLS configuration stores, constant facts (tls.ClientAuthType, grpc codes); thorough tier audits the pinned middleware source",
          "Structural necessary conditions only: both auth interceptors installed; all four protected registrations implement the override, which returns the server's auth result, built from the service's own token key; acceptance only after whole-string equality, rejection with Unauthenticated; TLS server config requires+verifies client certs under CA/flag, ClientCAs from the CA file, peer verification on verified chains with exact CN / VerifyHostname, no InsecureSkipVerify, both servers wired from their own keys. crypto/tls and gRPC behaviour are assumed.",
          "go/types+go/ssa; go-grpc-middleware interceptor contract (audited in thorough tier); crypto/tls semantics"),
+ "C18": ("7/C18", "writer-reader agreement (prefix width, byte order, buffer, payload length) extracted from resolved callees, ordering rules, loop rules on the chunk writer/readers, typestate-like pooled-object rules (reset before reuse, no use after return, no escape), type facts for the codec ladder and the vtproto pair of all API messages, per-package pool discipline of the three compressors",
+         "Structural necessary conditions only: both framings agree on width/endianness/length; chunking forwards exactly the bytes read, in order, until EOF; pooled vtproto messages are reset in receive loops, not used after return and their bytes do not escape; codec ladders prefer vtproto, all 29 API message types implement the pair, codec named proto and registered; each compressor resets before hand-out, returns writers only after the underlying Close and readers only on EOF. Round trips of generated code and of the compression libraries are not decided.",
+         "go/types+go/ssa; encoding/binary, io, sync.Pool, vtproto pool contracts"),
 }
 PENDING_REASON = "rules designed (DESIGN.md section 7), check not built yet"
 checks=[]; na=[]
